@@ -1,0 +1,6 @@
+//go:build !verif
+
+package pugjs
+
+// verifYield is a no-op without the build tag "verif"
+func verifYield(string) {}
